@@ -274,3 +274,35 @@ reg_node("C05", "Theorems (every voter state, every request, every order of even
          "are the persisted ones; no step of any kind lowers the term or changes a cast vote within a term; along any history at most one "
          "candidate per term and terms never decrease; reported terms lie between the terms before and after the step; the pre-repair handler is refuted.",
          ["(term, votedFor) in the model IS the term file: crash atomicity of its rename is covered by C10's crash images"])
+
+
+# ------------------------------------------------------------------ C20
+
+def run_c20(pid, tier, seed):
+    wd = vlib.workdir(pid)
+    n = 6 if tier == "quick" else 60
+    rc, out = vlib.vh(["raft", "ident", seed, n, wd], timeout=1200)
+    if rc != 0:
+        return {"tie_broken": "vh raft ident failed: " + out[-1500:]}
+    meta = json.load(open(os.path.join(wd, "ident_meta.json")))
+    viols, broken = eval_cases(wd, "cases_ident_*.v", meta, pid, "ident")
+    for f in meta.get("findings") or []:
+        prop, sig, detail = (f.split("|", 2) + ["", ""])[:3]
+        viols.append({"signature": "ident-oracle " + sig, "detail": detail, "found": True,
+                      "replay": {"property": pid, "kind": "identity/lock oracle on the real code", "oracle": sig, "what": detail, "seed": seed}})
+    cov = {"evaluations": meta["cases"] + meta["dist"].get("lock/rounds", 0), "distinct_nontrivial": meta["cases"],
+           "rule": "every (dialer cluster, intended target) x (listener cluster, listener node) pair of a small domain plus random 64-bit "
+                   "identities: a vote request through the real connPool.doRPC over net.Pipe to the real server.handleConn/replyRPC; observed: "
+                   "did it get through, how many non-identity requests reached the handlers; SetIdentity on directories with and without a stored "
+                   "identity; 8 concurrent lockDir per round on one directory. distinct_nontrivial = distinct connection/SetIdentity cases",
+           "samples": meta["samples"], "distribution": meta["dist"]}
+    return {"violations": viols, "coverage": cov, "tie_broken": broken}
+
+
+register("C20", run=run_c20, tie="coq/Ident/Cases.v vs conn.go getConn/doRPC, server.go handleConn, rpc.go replyRPC (identity), util.go lockDir, storage.go SetIdentity",
+         assumptions=["link(2) is an atomic test-and-create", "peers run this library: every connection they use comes from connPool.getConn "
+                      "(a hand-crafted client that skips the identity request is outside the property, which speaks of nodes running the library)"],
+         trusted=["harness go/inpkg/ident.go (plays the rpcCh case of stateLoop for the listener)"],
+         level_text="Theorems (every history of dials to adversarially chosen listeners, handshakes, sends, closes): a non-identity request reaches "
+                    "a listener's handlers only over a connection whose listener is the (cluster,node) the dialer intended; a dialer keeps only such "
+                    "connections; a held lock refuses every other attempt; a set identity cannot be changed. Tie: real pool/server code over pipes.")
